@@ -1346,7 +1346,7 @@ def judge_C19(case, ml, il):
                 return ("ok", "")
             return default_judge(case, ml[:k], il)
         return ("ok", "") if ml == il else default_judge(case, ml, il)
-    return judge_projection(["load", "get", "elf", "elf_section", "elf_end", "elf_nth", "elf_count", "elf_dbg"])(case, ml, il)
+    return judge_projection(["load", "get", "elf", "elf_section", "elf_end", "elf_nth", "elf_count", "elf_dbg", "debug"])(case, ml, il)
 
 
 # ---- header regions --------------------------------------------------------------------------------
@@ -1479,7 +1479,7 @@ PROPS.update({
     "C05": dict(gen=gen_C05, configs=["dev", "rel"], judge=judge_mbi_full, both_placements=True, assumptions=[]),
     "C17": dict(gen=gen_C17, configs=["dev", "rel"], judge=judge_projection(["load", "get", "cmdline", "bootloader", "modinfo", "module", "modules", "ctor", "as_bytes", "pstr", "debug"]),
                 both_placements=True, assumptions=["Rust &str arguments are valid UTF-8 by the type's invariant"]),
-    "C18": dict(gen=gen_C18, configs=["dev", "rel"], judge=judge_projection(["load", "get", "efi_mmap", "efi_desc", "efi_end", "efi_nth", "efi_count", "efi_dbg"]),
+    "C18": dict(gen=gen_C18, configs=["dev", "rel"], judge=judge_projection(["load", "get", "efi_mmap", "efi_desc", "efi_end", "efi_nth", "efi_count", "efi_dbg", "debug"]),
                 both_placements=True, assumptions=[]),
     "C19": dict(gen=gen_C19, configs=["dev", "rel"], judge=judge_C19,
                 both_placements=True, assumptions=["section names (external addresses) are not dereferenced"]),
